@@ -175,17 +175,32 @@ func (x *Ctx) DoLite(kind, key, val string, f func()) {
 // deadline. The verdict is not taken here: the driver replays the case in fresh processes.
 func (x *Ctx) StartStallWatchdog(limit time.Duration, path string) {
 	go func() {
+		// the limit is on the processor time this process has used while inside one case (a loaded machine stretches the
+		// clock, not the work); ten times the limit on the clock catches a case that is blocked without using any
 		const step = 2 * time.Second
-		last, since := x.seq.Load(), time.Duration(0)
+		cpu := func() time.Duration {
+			var ru syscall.Rusage
+			if syscall.Getrusage(syscall.RUSAGE_SELF, &ru) != nil {
+				return 0
+			}
+			return time.Duration(ru.Utime.Nano() + ru.Stime.Nano())
+		}
+		last, since, wall, prev := x.seq.Load(), time.Duration(0), time.Duration(0), cpu()
 		for {
 			time.Sleep(step)
-			cur := x.seq.Load()
+			cur, now := x.seq.Load(), cpu()
+			used := now - prev
+			prev = now
 			if cur != last || cur%2 == 0 {
-				last, since = cur, 0
+				last, since, wall = cur, 0, 0
 				continue
 			}
-			since += step
-			if since < limit {
+			if used > step*4 {
+				used = step * 4 // many goroutines on many cores: count the round, not the cores
+			}
+			since += used
+			wall += step
+			if since < limit && wall < 10*limit {
 				continue
 			}
 			// the main goroutine last wrote the case before the Add we observed and has not left it since
